@@ -7,6 +7,7 @@ import (
 	"fmt"
 	"go/types"
 	"sort"
+	"strings"
 )
 
 type State struct {
@@ -44,6 +45,9 @@ func (ex *Exec) comp(name, sort string) string {
 	}
 	ex.comps[name] = sort
 	ex.decls = append(ex.decls, fmt.Sprintf("(declare-const %s$init %s)", name, sort))
+	if strings.HasPrefix(name, "Armed$") {
+		ex.decls = append(ex.decls, fmt.Sprintf("(assert (not %s$init))", name)) // no deferred call is pending at entry
+	}
 	return name
 }
 
@@ -143,14 +147,13 @@ func (ex *Exec) subRef(ref T, st types.Type, i int) T {
 			ex.decls = append(ex.decls, "(declare-fun sub$owner (Ref) Ref)", "(declare-fun sub$tag (Ref) Int)")
 		}
 		ex.subTags[fn] = len(ex.subTags) + 1
+		// an embedded object is allocated exactly when its owner is (stated for the entry state)
+		ex.allocComp()
+		ex.decls = append(ex.decls, fmt.Sprintf("(assert (forall ((x Ref)) (! (= (select Alloc$init (%s x)) (select Alloc$init x)) :pattern ((%s x))))) ;relax", fn, fn))
+		// embedded objects of distinct owners / distinct fields are distinct and never nil
+		ex.decls = append(ex.decls, fmt.Sprintf("(assert (forall ((x Ref)) (! (and (= (sub$owner (%s x)) x) (= (sub$tag (%s x)) %d) (not (= (%s x) nil))) :pattern ((%s x))))) ;relax", fn, fn, ex.subTags[fn], fn, fn))
 	}
-	t := app("Ref", fn, ref)
-	key := t.s
-	if !ex.subSeen[key] {
-		ex.subSeen[key] = true
-		ex.decls = append(ex.decls, fmt.Sprintf("(assert (and (= (sub$owner %s) %s) (= (sub$tag %s) %d) (not (= %s nil))))", t.s, ref.s, t.s, ex.subTags[fn], t.s))
-	}
-	return t
+	return app("Ref", fn, ref)
 }
 
 // fieldLV: location of field i of the struct located at base.
